@@ -53,10 +53,10 @@ def _side_of(f, p):
     return side
 
 
-def _fold_accumulate(f, mode):
+def _fold_accumulate(f, mode, side="left"):
     """Fold AdaptiveBalance.find_balance(src, dst, mode) with symbolic previous balance (A_prev, b_prev) and a stage object whose fit
     yields (A_new[, b_new]): non-commutative normal forms (A, b) of the accumulated balance, or None outside the folding language."""
-    from ..fold import Folder, Obj, Opaque, Raised, Refuse
+    from ..fold import Folder, Obj, Opaque, Raised, Refuse, Sym
     from ..terms import nf
 
     log = {"cls": [], "fit": []}
@@ -67,6 +67,13 @@ def _fold_accumulate(f, mode):
             fields = {"balance_scaling": Opaque("m", "A_new"), "find_balance": lambda a2, k2: log["fit"].append([nf(x) for x in a2])}
             if affine:
                 fields["balance_translation"] = Opaque("v", "b_new")
+
+            def apply(a2, k2, fields=fields):
+                # the stage's own apply_balance in the module's convention (rule C12.a checks that every class uses the same one)
+                x = a2[0]
+                y = Sym("@", [x, fields["balance_scaling"]] if side == "left" else [fields["balance_scaling"], x])
+                return Sym("+", [y, fields["balance_translation"]]) if affine else y
+            fields["apply_balance"] = apply
             return Obj("stage", fields)
         return make
     fo = Folder(symbolic=True)
@@ -139,7 +146,7 @@ def rule_a(ctx):
                str([norm(x)[:70] for x in stmts]), c.node, evidence=(not calls_ap and inline))
     if True:
         # decided on the folded method, per mode, whenever it folds (updates written in place, through helpers, in any order)
-        sem = {mode: _fold_accumulate(f, mode) for mode in ("diagonal", "linear", "affine")}
+        sem = {mode: _fold_accumulate(f, mode, side) for mode in ("diagonal", "linear", "affine")}
         if all(v is not None for v in sem.values()):
             Ap, bp, An, bn = NC.sym("A_prev"), NC.sym("b_prev"), NC.sym("A_new"), NC.sym("b_new")
             want_A = Ap @ An if side == "left" else An @ Ap
@@ -165,12 +172,20 @@ def rule_a(ctx):
     # effect of the update statements as substitutions, per mode (the `if mode == 'affine'` arm is taken or not)
     loc = {}
 
+    incomplete = []
+
     def run(stmts, A, b, affine):
         for s in stmts:
             if isinstance(s, ast.If):
                 t = norm(s.test)
                 if t in ("mode == 'affine'",):
                     A, b = run(s.body if affine else s.orelse, A, b, affine)
+                else:
+                    incomplete.append(norm(s.test)[:60])
+                continue
+            if not isinstance(s, ast.Assign) and not (isinstance(s, ast.Expr) and isinstance(s.value, ast.Constant)):
+                # a call (the update delegated to a helper), a loop, an augmented assignment: this reading does not interpret it
+                incomplete.append(norm(s)[:60])
                 continue
             if isinstance(s, ast.Assign):
                 a = self_attr(s.targets[0])
@@ -197,6 +212,10 @@ def rule_a(ctx):
         loc.clear()
         A, b = run(body[idx + 1:], Ap, bp, affine)
         mode = "affine" if affine else "diagonal/linear"
+        if incomplete and (A != want_A or b != (want_b_lin + bn if affine else want_b_lin)):
+            ctx.ob(R, f.qname, f"{mode} stage: accumulated balance composes the stages in the application convention", False,
+                   f"accumulation statements not found: the update is (partly) done by statements this reading does not interpret: {incomplete[:3]}", f.node)
+            continue
         ctx.ob(R, f.qname, f"{mode} stage: accumulated scaling is {'A_prev @ A_new' if side == 'left' else 'A_new @ A_prev'}", A == want_A,
                f"normal form {A!r}; apply_balance uses the image as the {side} operand, so applying the stages one after the other gives {want_A!r}", f.node)
         wb = want_b_lin + bn if affine else want_b_lin
